@@ -28,8 +28,20 @@ Theorem no_failure_sends_all : forall q sent orc, forallb negb orc = true ->
 Proof. exact pass_noblock. Qed.
 Print Assumptions no_failure_sends_all.
 
+(* The single-shot entry point (serviceTxPktsOnce / serviceAllTxOnce) sends at most the head packet and
+   otherwise leaves the queue exactly as it was: a transiently failed head packet stays at the head. *)
+Theorem once_keeps_queue_order : forall q f q' sent,
+  once q f = (q', sent) -> sent ++ q' = q /\ (length sent <= 1)%nat.
+Proof. exact once_prefix. Qed.
+Print Assumptions once_keeps_queue_order.
+
 (* non-vacuity: a history with a failing destination in the middle *)
 Example c35_nonvacuous :
   let s := run [Enq (1,10); Enq (2,20); Enq (3,10); Enq (4,10); Service [true;false]; Service []] in
   log s = [(2,20); (1,10); (3,10); (4,10)] /\ txq s = [].
+Proof. vm_compute. split; reflexivity. Qed.
+
+Example c35_once_nonvacuous :
+  let s := run [Enq (1,10); Enq (2,10); Once true; Once false; Once false] in
+  log s = [(1,10); (2,10)] /\ txq s = [].
 Proof. vm_compute. split; reflexivity. Qed.
